@@ -4,6 +4,8 @@ import (
 	"bytes"
 	"fmt"
 	"math/rand"
+	"os"
+	"path/filepath"
 	"regexp"
 	"sort"
 	"unicode/utf8"
@@ -188,6 +190,19 @@ func c09exec(j run.Job, a *run.Acc) {
 		}
 		mine := append([]byte{}, raw...) // the caller's own buffer ...
 		f := text.NewFile("f", mine)
+		if long && seedCase%3 == 0 {
+			// the same bytes as a file on disk, loaded with text.ReadFile
+			if dir, derr := os.MkdirTemp(run.OutRoot(), "c09-readfile-"); derr == nil {
+				path := filepath.Join(dir, "f")
+				if os.WriteFile(path, raw, 0o644) == nil {
+					if lf, rerr := text.ReadFile(path); rerr == nil {
+						f = lf
+						a.Count("long files loaded from disk with text.ReadFile", 1)
+					}
+				}
+				os.RemoveAll(dir)
+			}
+		}
 		for i := range mine { // ... which the caller reuses for something else right after NewFile: the file must have its own copy
 			mine[i] ^= 0x5a
 		}
@@ -441,7 +456,7 @@ func init() {
 		},
 		Exec: c09exec,
 		Finish: func(tier string, a *run.Acc, cov map[string]any) string {
-			cov["rule"] = "case = one file (pieces: ASCII, '_', digits, space, tab, LF, FF, CRLF, lone CR, 2/3/4-byte runes, truncated runes, 0xff, one piece in five an arbitrary byte 0-255; family byte-sweep: each of the 256 byte values after / before / at the end of six words; family long: files of up to ~200 KB made of tokens of hundreds to tens of thousands of bytes, examined at up to 400 positions - ends, token starts, neighbours of the multiples of 256/4096/32768, random - with arguments of 255-7000 bytes) at a base offset varied by 0-3 preceding files, one case in 20 (a third of the long ones) after a file of 64 KiB ... 2^40 bytes (and an optional following file). " +
+			cov["rule"] = "case = one file (pieces: ASCII, '_', digits, space, tab, LF, FF, CRLF, lone CR, 2/3/4-byte runes, truncated runes, 0xff, one piece in five an arbitrary byte 0-255; family byte-sweep: each of the 256 byte values after / before / at the end of six words; family long: files of up to ~200 KB made of tokens of hundreds to tens of thousands of bytes, examined at up to 400 positions - ends, token starts, neighbours of the multiples of 256/4096/32768, random - with arguments of 255-7000 bytes; a third of the long files are written to disk and loaded with text.ReadFile) at a base offset varied by 0-3 preceding files, one case in 20 (a third of the long ones) after a file of 64 KiB ... 2^40 bytes (and an optional following file). " +
 				"At EVERY position 0..len (long: the sample): Remaining, IsEOF, ReadRune (14 runes), MatchString/MatchWord (substrings at the cursor, one-bit mutations, over-long strings ending past EOF), " +
 				"ReadRegexp/ReadRegexpSubmatch (18 expressions, oracle = regexp package anchored with \\A on the suffix), Readf (contract-honouring functions, value shorter than read), SkipWhitespaces in 4 modes " +
 				"are compared with loop-and-compare specifications: match => new = old + matched length <= EOF and returned bytes equal the file's, mismatch => old position; an out-of-bounds access shows as a panic. " +
